@@ -259,7 +259,10 @@ def make_shapes(gen: Gen, tier: str, parse_mods: dict[str, list[str]]):
     shapes.append(Shape("WhileLoop", "While/cond", ["cond", "body"], build_w2,
                         {"cond": ("{", "|1}"), "body": ("{1|", "}")}))
     # FunctionCall
-    for name in ("f", "", "a_1", "9"):
+    # names as the lexer can hand them over: identifier characters, nothing,
+    # a leading digit, and code-page / Unicode characters that are alphanumeric
+    # for str methods and \w but not for a python identifier
+    for name in ("f", "", "a_1", "9", "f²", "λ", "½x₁"):
         def build(g, fill, name=name):
             return g.struct("FunctionCall", name)
         shapes.append(Shape("FunctionCall", f"Call/{name!r}", [], build, {}))
@@ -276,6 +279,11 @@ def make_shapes(gen: Gen, tier: str, parse_mods: dict[str, list[str]]):
         src = "@f" + "".join(":" + p for p in pl) + "|"
         shapes.append(Shape("FunctionDef", f"Def/{':'.join(pl) or '-'}",
                             ["body"], build, {"body": (src, ";")}))
+    for fname in ("g²", "λ"):
+        def build(g, fill, fname=fname):
+            return g.struct("FunctionDef", fname, ["x"], fillv(fill, "body"))
+        shapes.append(Shape("FunctionDef", f"Def/name={fname}", ["body"],
+                            build, {"body": ("@" + fname + ":x|", ";")}))
     # Lambda
     for ar, src in ((0, "λ0|"), (1, "λ1|"), (2, "λ2|"), (3, "λ3|"),
                     ("default", "λ")):
